@@ -391,6 +391,8 @@ func snapTrace(args []string) int {
 			poly = genSpiral(rng, *w)
 		case "court":
 			poly = genCourt(rng, *w)
+		case "courtbig":
+			poly = genCourtSized(rng, *w, true)
 		case "dart":
 			poly = genDart(rng, *w)
 		case "arbitrary":
